@@ -454,14 +454,12 @@ func (t *Tokenizer) tokenizeBuffer(buf []byte, last bool) {
 		case commentEnd:
 			t.mode = valueMap
 		case charErr:
-			if 256 < len(t.mode) && t.mode[256] == 't' {
+			if 256 < len(t.mode) && t.mode[256] == 't' && !(t.OnlyOne && depth == 0) {
 				// A token read byte by byte ends here just as it does when it is
 				// scanned in one go, the byte is looked at again after the token.
+				// (A single top level token is followed by nothing but space.)
 				t.addToken(string(t.tmp))
 				off--
-				if t.OnlyOne {
-					continue
-				}
 				break // out of the switch, a value at depth zero is a complete document
 			}
 			t.byteError(off, t.mode, b)
